@@ -628,9 +628,10 @@ class ClientTls(Client):
         except OSError as ex:
             if ex.errno in (ssl.SSL_ERROR_WANT_READ, ssl.SSL_ERROR_WANT_WRITE):
                 return False
-            elif ex.errno in (ssl.SSL_ERROR_EOF, ):
-                self.close()
-                raise   # should give up here nicely
+            elif ex.errno in (ssl.SSL_ERROR_EOF, errno.ECONNABORTED):  # server aborted
+                self.close()  # give up here nicely
+                self.cutoff = True  # signal far side terminated handshake
+                return False
             else:
                 self.close()
                 raise
